@@ -5,6 +5,7 @@
 import Exmex.Spec.Surface
 import Exmex.Spec.Split
 namespace Exmex
+namespace ReduceSplitAux
 
 
 
@@ -381,4 +382,5 @@ theorem merge_eq {α} (vs : List α) (x : α) (k : Nat) (_h : k + 1 < vs.length)
 theorem localMax_argmaxL (l : List Int) : LocalMax l (argmaxL l) :=
   ⟨fun j hj => argmaxL_gt_left l j (by omega), fun h => argmaxL_ge l _ h⟩
 
+end ReduceSplitAux
 end Exmex
